@@ -4,7 +4,9 @@
       codes: 5 div d | 6 key fifths mode | 7 time beats beat_type | 8 transpose chromatic
              9 note rest chord step alter octave dur voice type dots tup_actual tup_normal
              10 backup d | 11 forward d | 12 tempo num den
-    output (-1000 code)  or  (0 (tsig...) (ksig...) (tempo...) (note...) total)
+             13 harmony root kind (deg...) bass offset     root, bass = () | (step) | (step alter)
+                                                           deg = (value type) | (value type alter)   offset = () | (o)
+    output (-1000 code)  or  (0 (tsig...) (ksig...) (tempo...) (note...) total (chord...))
       rationals are (num den). *)
 From Coq Require Import ZArith QArith List Bool.
 From NS Require Import Base.Sx Gen.G05 Model.MusicXml.
@@ -13,6 +15,18 @@ Local Open Scope Z_scope.
 
 Definition xQ (a b : sx) : Q := (inject_Z (xZ a) / inject_Z (xZ b))%Q.
 Definition oQ (q : Q) : sx := let r := Qred q in L [I (Qnum r); I (Z.pos (Qden r))].
+
+Definition xPitchOpt (s : sx) : option (Z * option Z) :=
+  match xL s with
+  | [] => None
+  | [a] => Some (xZ a, None)
+  | a :: b :: _ => Some (xZ a, Some (xZ b))
+  end.
+Definition xDeg (s : sx) : Z * option Z * Z :=
+  match xL s with
+  | v :: t :: a :: _ => (xZ v, Some (xZ a), xZ t)
+  | _ => (xZ (xnth 0 s), None, xZ (xnth 1 s))
+  end.
 
 Definition xTok (s : sx) : tok :=
   let a := fun n => xnth n s in
@@ -25,6 +39,8 @@ Definition xTok (s : sx) : tok :=
                (xZ (a 6%nat)) (xZ (a 7%nat)) (xZ (a 8%nat)) (xZ (a 9%nat)) (xZ (a 10%nat)) (xZ (a 11%nat))
   | 10 => TBackup (xZ (a 1%nat))
   | 11 => TForward (xZ (a 1%nat))
+  | 13 => THarmony (xPitchOpt (a 1%nat)) (xZ (a 2%nat)) (map xDeg (xL (a 3%nat))) (xPitchOpt (a 4%nat))
+                   (xOptZ (a 5%nat))
   | _ => TTempo (xQ (a 1%nat) (a 2%nat))
   end.
 
@@ -46,7 +62,8 @@ Definition run (s : sx) : sx :=
              L (map (fun x => let '(t, k, m) := x in L [oQ t; I k; I m]) (q_ksigs o));
              L (map (fun x => let '(t, q) := x in L [oQ t; oQ q]) (q_tempos o));
              L (map oNote (q_notes o));
-             oQ (q_total o)]
+             oQ (q_total o);
+             L (map (fun x => let '(t, f) := x in L [oQ t; oZs f]) (q_chords o))]
       end
   | _ => oErr 99
   end.
